@@ -255,6 +255,15 @@ impl SessionSpec {
         rc::dh_pub(self.suite.dh, &self.s_priv(initiator)).expect("valid private key by construction")
     }
     pub fn psk(&self, n: u8) -> [u8; 32] {
+        // shaped values a caller may legitimately use: the first PSK of the name is all zero /
+        // all ones in one session out of 16 each
+        if self.hs.psks.iter().min() == Some(&n) {
+            match self.key_seed % 16 {
+                9 => return [0u8; 32],
+                10 => return [0xffu8; 32],
+                _ => {},
+            }
+        }
         expand32(self.key_seed, 100 + n as u64)
     }
     pub fn prologue(&self) -> Vec<u8> {
